@@ -77,7 +77,7 @@ def handle (j : Json) : Except String Json := do
     let cands ← (arrOf j "cands").mapM fun c => do
       pure ({ dir := cpathOf (← hexField c "dir"), files := cpathOf (← hexField c "files"),
               info := cpathOf (← hexField c "info"), kind := ← c.getObjValAs? String "kind",
-              parentOk := boolOf c "parentOk" } : C07.Cand)
+              parentOk := boolOf c "parentOk", blocked := boolOf c "blocked" } : C07.Cand)
     let v := C07.check before after (cpathOf (← hexField j "dev")) (boolOf j "fallbackEnabled") cands (← optCPath j "got")
     let e := C07.expected before (cpathOf (← hexField j "dev")) (boolOf j "fallbackEnabled") cands
     pure (Json.mkObj [("ok", v == .ok), ("verdict", (reprStr v).replace "TrashVerif." ""),
